@@ -548,7 +548,7 @@ pub fn gen_logical(u: &mut Unstructured, max_items: usize) -> Logical {
 pub const DIMS: &[&str] = &[
     "comment", "blank-line", "parens", "spacing", "crlf", "str-unquoted", "str-decimal", "name-escaped", "name-relative",
     "owner-at", "owner-omitted", "ttl-omitted", "ttl-omitted-last-stated", "dollar-ttl", "dollar-origin", "class-omitted", "class-before-ttl",
-    "glued-quote", "trailing-space", "kv-quoted",
+    "glued-quote", "trailing-space", "kv-quoted", "header-parens",
 ];
 pub fn dim(name: &str) -> usize {
     DIMS.iter().position(|d| *d == name).expect("dimension")
@@ -955,9 +955,11 @@ impl R<'_, '_> {
         }
         // owner
         self.after_quote = false;
+        let mut owner_omitted = false;
         if self.last_owner.as_ref() == Some(&r.owner) && self.ch(150) {
             self.ws();
             self.d("owner-omitted");
+            owner_omitted = true;
         } else if self.cur_origin.as_ref() == Some(&r.owner) && self.ch(150) {
             self.out.push(b'@');
             self.d("owner-at");
@@ -983,22 +985,30 @@ impl R<'_, '_> {
         self.class_known = true;
         let ttl_tok = Tok::W(r.ttl.to_string());
         let class_tok = Tok::W(class_mnemonic(class).to_string());
+        // RFC 1035 section 5.1: parentheses group data that crosses a line
+        // boundary anywhere in an entry, not only inside the RDATA: in some
+        // files they may open directly after the owner (also glued to it:
+        // `@(`, `www(`) and span the TTL, class and type tokens.
+        let hp = self.busy && !owner_omitted && self.ch(40);
+        if hp {
+            self.d("header-parens");
+        }
         match (omit_ttl, omit_class) {
             (true, true) => {}
-            (true, false) => self.tok(&class_tok, false),
-            (false, true) => self.tok(&ttl_tok, false),
+            (true, false) => self.tok(&class_tok, hp),
+            (false, true) => self.tok(&ttl_tok, hp),
             (false, false) => {
                 if self.ch(128) {
-                    self.tok(&class_tok, false);
-                    self.tok(&ttl_tok, false);
+                    self.tok(&class_tok, hp);
+                    self.tok(&ttl_tok, hp);
                     self.d("class-before-ttl");
                 } else {
-                    self.tok(&ttl_tok, false);
-                    self.tok(&class_tok, false);
+                    self.tok(&ttl_tok, hp);
+                    self.tok(&class_tok, hp);
                 }
             }
         }
-        self.tok(&Tok::W(rr::mnemonic(r.rtype)), false);
+        self.tok(&Tok::W(rr::mnemonic(r.rtype)), hp);
         for t in &r.toks {
             self.tok(t, true);
         }
